@@ -934,6 +934,21 @@ class Analyser:
             return s.new(I.BOOL, d=(name, args[0]))
         if name == 'erf':
             return s.new(Itv(-1.0, 1.0, False, False, iv.nan))
+        if name == 'copysign' and len(args) == 2:
+            # |x| with the sign of y: a NaN only when x is one; the magnitude is that of x
+            if iv.empty:
+                return s.new(I.NAN if iv.nan else I.BOTTOM)
+            m = max(abs(iv.lo), abs(iv.hi))
+            i2 = s.iv(args[1])
+            lo, hi = -m, m
+            if not i2.empty and not i2.nan and (i2.lo > 0 or (i2.lo == 0 and i2.lo_open)):
+                lo = min(abs(iv.lo), abs(iv.hi)) if (iv.lo > 0 or iv.hi < 0) else 0.0
+            elif not i2.empty and not i2.nan and (i2.hi < 0 or (i2.hi == 0 and i2.hi_open)):
+                hi = -(min(abs(iv.lo), abs(iv.hi)) if (iv.lo > 0 or iv.hi < 0) else 0.0)
+            return s.new(Itv(lo, hi, False, False, iv.nan, iv.isint))
+        if name == 'fabs':
+            m = max(abs(iv.lo), abs(iv.hi)) if not iv.empty else 0.0
+            return s.new(Itv(0.0, m, False, False, iv.nan, False, iv.empty))
         if name in ('lgamma', 'gamma'):
             ok = iv.gt0()
             self.sink(node, name, ok, f'argument in {iv}')
